@@ -19,10 +19,11 @@
     mode E                                           (first operation only) the harness runs the history on
                                                      Memory<il::Expression>: every stored constant becomes a
                                                      small constant expression tree, every loaded expression is
-                                                     evaluated before printing; the model's answers are those
-                                                     of the Constant memory — the comparison is the statement
-                                                     "the Expression instance computes, symbolically, what the
-                                                     Constant instance computes"
+                                                     evaluated before printing; the model column is computed by
+                                                     the Expression-instance model (`storeE`/`loadE`/`eqE`, the
+                                                     same tree `(c ^ k) ^ k` stored, the loaded tree evaluated
+                                                     by `Expr.eval`); the specification column is the byte array
+                                                     of the evaluated values
   an operation on an unknown handle answers `nohandle`, an unreadable one `bad-request`.
 
   Answer line: `<model answers joined by " ; ">\t<specification answers joined by " ; ">`.
@@ -186,12 +187,139 @@ def step (s : St) (op : String) : St × String × String :=
   | ["mode", _] => (s, "ok", "ok")     -- `mode E`: the harness runs the history on Memory<il::Expression>
   | _ => bad
 
+/-! ### `mode E`: the same interpreter over `MemE` -/
+
+structure StE where
+  hs : List (String × MemE × SpecMem)
+  next : Nat
+
+def StE.find (s : StE) (h : String) : Option (MemE × SpecMem) := s.hs.lookup h
+def StE.put (s : StE) (h : String) (m : MemE) (sp : SpecMem) : StE :=
+  { s with hs := (h, m, sp) :: s.hs.filter (fun x => x.1 != h) }
+
+/-- the harness's `mask_a5`: 0xa5 in every byte, trimmed to `w` bits -/
+def maskA5 (w : Nat) : Const := Const.new (0xa5 * ((256 ^ ((w + 7) / 8) - 1) / 255)) w
+
+/-- the harness's `expr_of_const`: the tree `(c ^ k) ^ k` -/
+def exprOfConst (c : Const) : Expr :=
+  if c.bits = 0 then .const c
+  else
+    let k := maskA5 c.bits
+    let ck := Const.new (c.val ^^^ k.val) c.bits
+    match Expr.mkBin .xor (.const ck) (.const k) with
+    | .ok e => e
+    | _ => .const c
+
+def showLoadE : Res (Option Expr) → String
+  | .ok (some e) => (Expr.eval e).show_
+  | .ok none => "none"
+  | .err e => toString e
+  | .panic => "panic"
+
+def stepE (s : StE) (op : String) : StE × String × String :=
+  let bad := (s, "bad-request", "bad-request")
+  let noh := (s, "nohandle", "nohandle")
+  match op.splitOn " " with
+  | ["new", h, e] =>
+    match endian? e with
+    | some e =>
+      let sp : SpecMem := ⟨e, fun _ => none, [], [], fun _ => none, s.next⟩
+      ({ (s.put h (Paged.newE e) sp) with next := s.next + 1 }, "ok", "ok")
+    | none => bad
+  | ["newb", h, e, be, secs] =>
+    match endian? e, endian? be, sections? secs with
+    | some e, some be, some secs =>
+      let b : Backing := ⟨be, secs⟩
+      let probes := secs.foldl (fun acc sec => acc ++ (List.range sec.data.length).map (· + sec.addr)) []
+      let sp : SpecMem := ⟨e, b.get8, probes, [], b.permissions, s.next⟩
+      ({ (s.put h (Paged.newWithBackingE e b) sp) with next := s.next + 1 }, "ok", "ok")
+    | _, _, _ => bad
+  | ["clone", h, h2] =>
+    match s.find h with
+    | some (m, sp) => (s.put h2 m sp, "ok", "ok")
+    | none => noh
+  | ["store", h, a, c] =>
+    match s.find h, Sx.parseNat a, Fil.const? c with
+    | none, _, _ => noh
+    | some (m, sp), some a, some c =>
+      let v := Const.new c.val c.bits
+      let (m', ans) := match Paged.storeE m a (exprOfConst v) with
+        | .ok m' => (m', "ok")
+        | .err e => (m, toString e)
+        | .panic => (m, "panic")
+      if v.bits % 8 ≠ 0 ∨ v.bits = 0 then (s.put h m' sp, ans, "err:other")
+      else if a + v.bits / 8 > U64 then (s.put h m' sp, ans, "?")
+      else
+        let bs := bytesOf sp.endian v
+        let sp' := { sp with bytes := write sp.bytes a bs,
+                             probes := (List.range bs.length).map (· + a) ++ sp.probes, ver := s.next }
+        ({ (s.put h m' sp') with next := s.next + 1 }, ans, "ok")
+    | _, _, _ => bad
+  | ["load", h, a, n] =>
+    match s.find h, Sx.parseNat a, n.toNat? with
+    | none, _, _ => noh
+    | some (m, sp), some a, some n =>
+      let ans := showLoadE (Paged.loadE m a n)
+      let spec :=
+        if n % 8 ≠ 0 ∨ n = 0 ∨ a + n / 8 > U64 then "?"
+        else match read sp.bytes a (n / 8) sp.endian with
+          | some c => toString c
+          | none => "none"
+      (s, ans, spec)
+    | _, _, _ => bad
+  | ["perm", h, a, len, p] =>
+    match s.find h, Sx.parseNat a, Sx.parseNat len, p.toNat? with
+    | none, _, _, _ => noh
+    | some (m, sp), some a, some len, some p =>
+      let m' := Paged.setPermissionsE m a len p
+      if a + len > U64 ∨ len > 2 ^ 24 then (s.put h m' sp, "ok", "?")
+      else
+        let pgs := pagesBelow (a + len) (pageOf a) (len / PAGE_SIZE + 2)
+        let perms :=
+          if len = 0 then AList.set sp.perms (pageOf a) none
+          else pgs.foldl (fun acc pa => AList.set acc pa (some p)) sp.perms
+        let sp' := { sp with perms := perms, ver := s.next }
+        ({ (s.put h m' sp') with next := s.next + 1 }, "ok", "ok")
+    | _, _, _, _ => bad
+  | ["getperm", h, a] =>
+    match s.find h, Sx.parseNat a with
+    | none, _ => noh
+    | some (m, sp), some a =>
+      let ans := showPerm (Paged.permissionsE m a)
+      let spec := match AList.get sp.perms (pageOf a) with
+        | some (some p) => showPerm (some p)
+        | some none => "-"
+        | none => showPerm (sp.bperm a)
+      (s, ans, spec)
+    | _, _ => bad
+  | ["eq", h, h2] =>
+    match s.find h, s.find h2 with
+    | some (m, sp), some (m2, sp2) =>
+      let ans := if Paged.eqE m m2 then "true" else "false"
+      let spec :=
+        if sp.ver = sp2.ver then "true"
+        else if specBytesDiffer sp sp2 then "false"
+        else "-"
+      (s, ans, spec)
+    | _, _ => noh
+  | ["mode", _] => (s, "ok", "ok")
+  | _ => bad
+
 def handle (line : String) : String :=
   let ops := line.splitOn " ; "
-  let (_, ms, ss) := ops.foldl (fun (acc : St × List String × List String) op =>
-    let (s, ms, ss) := acc
-    let (s', m, sp) := step s op
-    (s', m :: ms, sp :: ss)) (⟨[], 0⟩, [], [])
+  let (ms, ss) :=
+    if ops.head? = some "mode E" then
+      let (_, ms, ss) := ops.foldl (fun (acc : StE × List String × List String) op =>
+        let (s, ms, ss) := acc
+        let (s', m, sp) := stepE s op
+        (s', m :: ms, sp :: ss)) (⟨[], 0⟩, [], [])
+      (ms, ss)
+    else
+      let (_, ms, ss) := ops.foldl (fun (acc : St × List String × List String) op =>
+        let (s, ms, ss) := acc
+        let (s', m, sp) := step s op
+        (s', m :: ms, sp :: ss)) (⟨[], 0⟩, [], [])
+      (ms, ss)
   " ; ".intercalate ms.reverse ++ "\t" ++ " ; ".intercalate ss.reverse
 
 def main : IO Unit := driverLoop handle
